@@ -75,6 +75,18 @@ CHECKS = {
          "plus direct checks that every error name extends the caller's root path. Location accuracy is so far established by the "
          "model-vs-code equality of located error sets, not yet by a standalone theorem.",
          "Lean 4 proof (result laws) + located-error-set correspondence", "DESIGN.md §6 C17"),
+ "C18": ("Lean model of the field-schemata bookkeeping (which schema reaches which (object, member) along every merge of the validator "
+         "tree) and of post.ApplyDefaults, with kernel-checked theorems for every list of recorded entries: present members stay, every "
+         "added member was absent and holds a default of a schema that reached it, every absent member reached with a default is filled. "
+         "Tie: post.ApplyDefaults on the real result (plain and recycling validator) vs. the model vs. the C18 statement evaluated from "
+         "a separate specification of applicable schemas. The equivalence of the recorded entries with that specification is established "
+         "by correspondence, not yet by a theorem.",
+         "Lean 4 proof (post-processor laws) + defaulted-data differential against model and specification", "DESIGN.md §6 C18/C19"),
+ "C19": ("Kernel-checked theorems about the model of post.Prune for every list of recorded entries: a member remains exactly when an entry "
+         "reached it, array elements are never removed, scalars are untouched, pruning is idempotent. Tie: post.Prune on the real result "
+         "vs. the model vs. the C19 statement evaluated from the specification of applicable schemas; pruned data is validated and "
+         "pruned again. The equivalence of recorded entries and specification is by correspondence.",
+         "Lean 4 proof (prune laws, idempotence) + pruned-data differential against model and specification", "DESIGN.md §6 C18/C19"),
  "C20": ("Lean 4 theorems over a list-level model of validate.Result (ordered-set union, additive counts, nil handling, every finite op "
          "sequence by induction); tied to result.go by replaying random op sequences on the real code and comparing every intermediate state.",
          "Lean 4 proof (induction over op sequences) + differential correspondence", "DESIGN.md §6 C20"),
